@@ -86,6 +86,9 @@ mod scripting;
 mod shell;
 mod signals;
 
+#[cfg(cicada_verif)]
+pub mod verif_hooks;
+
 /// Represents an error calling `exec`.
 pub use crate::types::CommandResult;
 pub use crate::types::LineInfo;
